@@ -30,6 +30,8 @@ var (
 	fList   = flag.Bool("list", false, "list scenarios")
 	fOnly   = flag.String("only", "", "run only the scenario with this id")
 	fVerb   = flag.Bool("verbose", false, "print traces")
+	fOSConf = flag.String("osconf", "", "run the E3 conformance cases against the real OS and write the result to this file")
+	fBinary = flag.String("binary", "", "path of the process-compose binary for the binary-level E3 cases")
 	fSkip   = flag.String("skip", "", "file with scenario ids to skip (one per line; scenarios that crashed the worker or were already done)")
 )
 
@@ -54,6 +56,10 @@ func TestMain(m *testing.M) {
 }
 
 func TestWorker(t *testing.T) {
+	if *fOSConf != "" {
+		writeOSConf(*fOSConf, *fBinary)
+		return
+	}
 	if *fProp == "" {
 		t.Skip("no -prop")
 	}
